@@ -308,6 +308,10 @@ class red_noise(_base_colored_noise):
             raise ValueError(f"Argument 'npts' must be <= {_INDEX_LIMIT}.")
 
         w_noise = self._whitenoise.get_series(npts)
+        if w_noise.shape[0] == 0:
+            # lfilter returns an unrelated final state for an empty input;
+            # an empty request must leave the carried filter state alone.
+            return w_noise
         samples, self._zi = signal.lfilter(self._a, self._b, w_noise, zi=self._zi)
         return samples * self._scaling
 
